@@ -13,38 +13,6 @@ than `D` markers.  The model driver evaluates it on every generated table
 namespace Router.Tree
 open Router Router.Spec
 
-def labelsDistinct : List Node → Bool
-  | [] => true
-  | c :: cs => cs.all (fun d => d.label != c.label) && labelsDistinct cs
-
-mutual
-def tiNode (D : Nat) (above : List Tok) : Node → Bool
-  | .mk k pre ms nf _ pc st pa an =>
-    decide (arity (above ++ headToks k pre) ≤ D)
-    && (!ms.isEmpty || nf.isSome || !st.isEmpty || pa.isSome || an.isSome)   -- no dead leaves
-    && (match k with
-        | .static => true
-        | .param => pre == [':']
-        | .any => pre == ['*'] && st.isEmpty && pa.isNone && an.isNone
-                  && pc == arity (above ++ headToks k pre))
-    && ms.all (fun x => x.1 != routeNotFound && (norm x.2.ppath).1 == above ++ headToks k pre
-                        && x.2.pnames.length == arity (above ++ headToks k pre))
-    && (match nf with
-        | some rm => (norm rm.ppath).1 == above ++ headToks k pre
-                     && rm.pnames.length == arity (above ++ headToks k pre)
-        | none => true)
-    && labelsDistinct st
-    && tiList D (above ++ headToks k pre) st
-    && tiOpt D (above ++ headToks k pre) .param pa
-    && tiOpt D (above ++ headToks k pre) .any an
-def tiList (D : Nat) (here : List Tok) : List Node → Bool
-  | [] => true
-  | c :: cs => c.kind == .static && !c.pre.isEmpty && tiNode D here c && tiList D here cs
-def tiOpt (D : Nat) (here : List Tok) (k : Kind) : Option Node → Bool
-  | none => true
-  | some c => c.kind == k && tiNode D here c
-end
-
 /-! ### lookups among the entries of one node -/
 
 theorem entryOf_method (m : Str) (rm : RouteMethod) : (entryOf m rm).method = m := rfl
